@@ -53,6 +53,60 @@ def sign_chain(ctx, tr, keys, shape, inp_path, ops, via="lib", origin=""):
                              tuple(sorted(shape["mem"]))))
 
 
+class TwoStores:
+    """Two KMS contexts holding the SAME key names with DIFFERENT keys; the second one's public halves are registered as
+    <name>@2, so that the projection tells which context's key made a signature."""
+
+    def __init__(self, a: signrun.Keys, b: signrun.Keys):
+        self.a, self.b = a, b
+        self.pub = dict(a.pub)
+        self.pub.update({f"{n}@2": v for n, v in b.pub.items()})
+
+    def kind(self, name):
+        return self.pub[name][0]
+
+
+def sign_session(ctx, tr, stores: TwoStores, shape, inp_path, ops, origin="session"):
+    """ONE Signer object (a library user's session) signs a chain of envelopes; every call names its own key, algorithm, key id
+    and KMS context (ops: [(action, key, alg, kid, ctx 1|2)]).  State kept by the object between calls must not matter."""
+    core.setup_repo_path()
+    from suit_generator import cmd_sign
+    from suit_generator.suit_sign_script_base import SignatureAlreadyPresentActions, SuitSignAlgorithms
+
+    ss, kms = signrun.sign_scripts()
+    d = inp_path.parent
+    scn = {"origin": origin, "via": "one-signer-object", "shape": shape, "ops": ops}
+    tr.begin(scn)
+    signer = cmd_sign._import_signer(ss)
+    cur = inp_path
+    tr.ev("Created", name="s0", e=project.project_env(cur.read_bytes(), tr.terms, stores.pub))
+    name = "s0"
+    for n, (action, key, alg, kid, c) in enumerate(ops):
+        out = d / f"{inp_path.stem}_sess{tr.tid}_{n}.suit"
+        err = ""
+        try:
+            env = signer.sign_envelope(cmd_sign.load_envelope(cur), key, kid, SuitSignAlgorithms(alg),
+                                       str((stores.a if c == 1 else stores.b).dir), kms, SignatureAlreadyPresentActions(action))
+            if env is None:
+                raise ValueError("empty result")
+            cmd_sign.save_envelope(out, env)
+        except BaseException as e:
+            if isinstance(e, (KeyboardInterrupt, MemoryError)):
+                raise
+            err = repr(e)[:120]
+        written = out.exists()
+        e = project.project_env((out if written else cur).read_bytes(), tr.terms, stores.pub)
+        nxt = f"s{n + 1}"
+        named = key if c == 1 else f"{key}@2"
+        tr.ev("Sign", inp=name, out=nxt, action=action, key=named, ktype=stores.kind(named), alg=alg, kid=hex(kid),
+              written=written, e=e, err=err)
+        ctx.count("evaluations")
+        if written:
+            cur, name = out, nxt
+            if e["blocks"]:
+                ctx.nontriv(("session", alg, hex(kid), action, c, n))
+
+
 def raw_signatures(ctx, tr, keys, n):
     """The KMS signing primitive in a loop: width and validity of every signature."""
     core.setup_repo_path()
@@ -121,6 +175,17 @@ def run(ctx: core.Check):
             k += 1
             sign_chain(ctx, tr, keys, sh, p, [("error", key, alg, kid)], via="cli" if k % 25 == 0 else "lib", origin="kid")
     toolrun.report(ctx, tr, label="sign-kid")
+    # one Signer object across calls naming different contexts (same key names, different keys), keys, algorithms, key ids
+    ctx.note("Use B/C: TLC operation sequences through ONE Signer object, alternating KMS contexts")
+    tr = toolrun.Trace()
+    stores = TwoStores(keys, signrun.Keys(d / "keys2"))
+    for k, h in enumerate(hists[: (80 if ctx.quick else 1500)]):
+        sh, p = inputs[(k + 5) % len(inputs)]
+        ops = [(o["action"], o["key"], o["alg"], int(o["kid"], 16), 1 + (k + n_) % 2) for n_, o in enumerate(h)]
+        if len(ops) == 1:   # a session needs history: sign once more with the other context's key of the same name
+            ops.append(("remove-old", ops[0][1], ops[0][2], ops[0][3] + 1, 3 - ops[0][4]))
+        sign_session(ctx, tr, stores, sh, p, ops)
+    toolrun.report(ctx, tr, label="sign-session")
     # sign recursive appends the same kind of block to every configured level: the C04 clauses (BlockClause, everything else
     # unchanged, manifests untouched) are judged per node by RecursiveJudge (the policy side belongs to C09)
     ctx.note("Use C: recursive hierarchies (C04 clauses per signed node)")
@@ -155,7 +220,13 @@ def replay(ctx, rec):
     d = ctx.tmp("c04r")
     keys = signrun.Keys(d / "keys")
     tr = toolrun.Trace()
-    if "tree" in scn:
+    if scn.get("via") == "one-signer-object":
+        b = envgen.Builder(d)
+        data = toolrun.create_lib(b.desc(scn["shape"], toolrun.create_lib))
+        p = d / "in.suit"
+        p.write_bytes(data)
+        sign_session(ctx, tr, TwoStores(keys, signrun.Keys(d / "keys2")), scn["shape"], p, [tuple(o) for o in scn["ops"]])
+    elif "tree" in scn:
         from . import c09_policy
         c09_policy.run_tree(ctx, tr, keys, scn["tree"], ctx.rng, via="lib", origin="replay")
     elif scn.get("origin") == "rawsig":
